@@ -516,6 +516,29 @@ func c13R5(c *Ctx) {
 			call, ok := e.Tuple.(*ssa.Call)
 			return ok && isPark(call)
 		}
+		// universal form, from the read itself: whatever is tested first — the count or the error — a read that
+		// returned bytes (an io.Reader may return them together with io.EOF) cannot get to the next read or to the
+		// pump's end without those bytes having been parked or forwarded
+		{
+			lenOfRead := func(v ssa.Value) bool {
+				lc, _ := callOf(v)
+				if lc == nil || calleeID(&lc.Call) != "builtin len" {
+					return false
+				}
+				for _, l := range origins(lc.Call.Args[0], originOpts{}) {
+					sl, ok := l.V.(*ssa.Slice)
+					if !ok || sl.High == nil || !sameValue(sl.High, n) {
+						return false
+					}
+				}
+				return true
+			}
+			no := contradicts([]assumption{valueIs(isValue(n), 1), valueIs(lenOfRead, 1)})
+			hitU, pathU := reachFromE(read.Block(), instrIndex(read)+1, func(in ssa.Instruction) bool { return in == ssa.Instruction(read) || isReturn(in) }, isSendChunk, func(from, to *ssa.BasicBlock) bool {
+				return parkedEdge(from, to) || no(from, to)
+			})
+			c.check(hitU == nil, ps.fn+"/bytes-before-error", c.ipos(read), "bytes that a read returned are parked or forwarded before its error is acted on", "bytes returned by a read together with an error (or before the count is looked at) can be dropped: the error is acted on first", c.pathStr(pathU)...)
+		}
 		// n > 0 edge
 		var nz *ssa.BasicBlock
 		for _, b := range f.Blocks {
